@@ -751,6 +751,9 @@ func (c *vT) run(check int, lq int) {
 		c.checkC13(q)
 	case 19:
 		c.checkC19()
+	case 5:
+		q := vString("q", lq)
+		c.checkC05(q)
 	case 1:
 		c.checkC01()
 	case 2:
@@ -799,6 +802,9 @@ func H_l2_api() {
 		c.symValues()
 	}
 	c.build()
+	if vParamDef("loaded", 0) == 1 {
+		c.st = c.reload(c.st)
+	}
 	c.run(check, lq)
 	vReach("end")
 }
@@ -815,6 +821,9 @@ func H_l3_api() {
 	lq := vParam("lq")
 	vConcreteValues(c, vParam("runs"))
 	c.build()
+	if vParamDef("loaded", 0) == 1 {
+		c.st = c.reload(c.st)
+	}
 	c.run(check, lq)
 	vReach("end")
 }
